@@ -27,7 +27,7 @@ OTHER_RECORDS = ['REMARK   1 nothing to see\n', 'HEADER    HYDROLASE            
                  'END\n', '\n', 'CRYST1   50.000   50.000   50.000  90.00  90.00  90.00 P 1           1\n', 'HETNAM     XXX SOMETHING\n',
                  'SIGATM    1  N   ALA A   1       0.010   0.010   0.010  0.00  0.00           N\n', 'MASTER        0    0    0\n',
                  'atom      1  N   ALA A   1       0.000   0.000   0.000  1.00  0.00           N\n', 'ENDMDL\n', 'TITLE     X\n']
-H_NAMES = [' H  ', ' HA ', '1HB ', 'HD11', ' HG ', '2H  ', ' HXT']
+H_NAMES = [' H  ', ' HA ', '1HB ', 'HD11', ' HG ', '2H  ', ' HXT', '1HH1', '2HD2', '3HD1']
 
 
 def positions(items):
